@@ -555,6 +555,16 @@ func hashWrites(fd *ast.FuncDecl) []string {
 	return out
 }
 
+// litBefore returns the literal written directly before the write of `what` ("" when there is none).
+func litBefore(writes []string, what string) string {
+	for i, w := range writes {
+		if w == what && i > 0 && strings.HasPrefix(writes[i-1], "lit:") {
+			return strings.TrimPrefix(writes[i-1], "lit:")
+		}
+	}
+	return ""
+}
+
 // evalInt evaluates an integer constant expression with Go's integer division.
 func evalInt(e ast.Expr, iota int) (int64, bool) {
 	switch t := e.(type) {
@@ -803,12 +813,10 @@ func genIdentityCtx() {
 	}
 	if fd := funcDecl(tkRel, "pseudoanonymizer", "generateDataID"); fd != nil {
 		w := hashWrites(fd)
-		if len(w) == 8 && strings.HasPrefix(w[4], "lit:") && strings.HasPrefix(w[2], "lit:") {
-			str("tokenDataIDClientTag", strings.TrimPrefix(w[4], "lit:"), tkRel+": generateDataID, tag written before the client id")
-			str("tokenDataIDZoneTag", strings.TrimPrefix(w[2], "lit:"), tkRel+": generateDataID, tag written before the additional context")
-		} else {
-			fail("%s: generateDataID no longer writes delim, data, (zone tag, context | client tag, id), delim, type", tkRel)
-		}
+		// the tags are the literals written directly before the client id / the additional context; when a
+		// write has disappeared the tag is emitted empty and `fact_token_id_shapes` no longer checks
+		str("tokenDataIDClientTag", litBefore(w, "context.ClientID"), tkRel+": generateDataID, tag written before the client id")
+		str("tokenDataIDZoneTag", litBefore(w, "context.AdditionalContext"), tkRel+": generateDataID, tag written before the additional context")
 		lf.def("tokenDataIDWrites", "List String", strList(w), tkRel+": generateDataID – h.Write arguments in source order (the first two after `data` are the zone branch, the next two the client branch)")
 	}
 	for _, p := range []struct{ fn, name string }{{"generateKeyForToken", "tokenKeyPrefix"}, {"generateKeyForHash", "tokenHashKeyPrefix"}} {
@@ -823,11 +831,7 @@ func genIdentityCtx() {
 	}
 	if fd := funcDecl("pseudonymization/common/common.go", "", "AggregateTokenContextToBytes"); fd != nil {
 		w := hashWrites(fd)
-		if len(w) == 4 && strings.HasPrefix(w[2], "lit:") {
-			str("tokenContextClientTag", strings.TrimPrefix(w[2], "lit:"), "pseudonymization/common/common.go: AggregateTokenContextToBytes, tag written before the client id")
-		} else {
-			fail("pseudonymization/common/common.go: AggregateTokenContextToBytes no longer writes (zone tag, context | client tag, id)")
-		}
+		str("tokenContextClientTag", litBefore(w, "context.ClientID"), "pseudonymization/common/common.go: AggregateTokenContextToBytes, tag written before the client id")
 		lf.def("tokenContextWrites", "List String", strList(w), "pseudonymization/common/common.go: AggregateTokenContextToBytes – h.Write arguments in source order (zone branch, then client branch)")
 	}
 	// ---- search hash ----
